@@ -151,6 +151,7 @@ class World:
         self.dispatch_fallback = {}
         self.uf_decls = {}
         self.ghost_names = set()
+        self.abstract_facts = {}
         hier = extract.exception_hierarchy(self.src)
         for name, bases in hier.items():
             self.cids.add(name, bases)
@@ -172,6 +173,8 @@ class World:
             if k.isupper() and isinstance(v, (int, float, str)) and not isinstance(v, bool) and k != 'CONTEXT_FILE':
                 self.spec_consts[k] = v
         self.ghost_names |= set(getattr(mod, 'GHOSTS', []))
+        for k, v in getattr(mod, 'ABSTRACT_FACTS', {}).items():
+            self.abstract_facts.setdefault(k, []).extend(v)
         self.dispatched |= set(getattr(mod, 'DISPATCHED', []))
         self.dispatch_fallback.update(getattr(mod, 'DISPATCH_FALLBACK', {}))
         for uname, sig in getattr(mod, 'UFS', {}).items():
@@ -346,6 +349,8 @@ class World:
             raise Unsupported(f'unresolved name {name}')
         if (file, name) in SPECIAL_GLOBALS:
             return PV('modattr', SPECIAL_GLOBALS[(file, name)])
+        if name in SINGLETONS and self._is_unique_object(file, name):
+            return SV(V.ObjV(z3.IntVal(SINGLETONS[name])))
         consts = self.consts.setdefault(file, self.src.module_consts(file))
         if name in consts:
             return SV(const(consts[name]))
@@ -371,6 +376,15 @@ class World:
         if name in BUILTIN_TYPE_NAMES:
             return PV('class', name)
         raise Unsupported(f'unresolved name {name} in {file}')
+
+    def _is_unique_object(self, file, name):
+        """NAME = UniqueObject(...) at module level (Done, UNSET): a distinguished object constant"""
+        for n in self.src.tree(file).body:
+            if isinstance(n, ast.Assign) and len(n.targets) == 1 and isinstance(n.targets[0], ast.Name) \
+                    and n.targets[0].id == name and isinstance(n.value, ast.Call) \
+                    and isinstance(n.value.func, ast.Name) and n.value.func.id == 'UniqueObject':
+                return True
+        return False
 
     def module_attr(self, it, mod, name):
         full = mod if name is None else f'{mod}.{name}'
@@ -433,6 +447,17 @@ class World:
         finally:
             it.polarity = saved_pol
 
+    def clause(self, it, text, env, ctx=None, polarity='oblige'):
+        """a contract clause as one formula: the clause is evaluated under all its own branchings in a
+        sub-exploration (the state is restored afterwards), so that forks inside one clause do not
+        multiply the paths of the function under verification.  Result: And_k (branch_k => value_k)."""
+        outcomes = self.loops.sub_explore(it, lambda: self.eval_spec(it, text, env, ctx, polarity))
+        parts = []
+        for kind, v, pcs, fresh in outcomes:
+            val = vals.truthy(v.t) if kind == 'val' and isinstance(v, SV) else z3.BoolVal(kind == 'val')
+            parts.append(z3.Implies(z3.And(*pcs) if pcs else z3.BoolVal(True), val))
+        return z3.And(*parts) if parts else z3.BoolVal(True)
+
     def _eval_spec(self, it, text, env, ctx=None):
         node = ast.parse(text.strip(), mode='eval').body
         frame = Frame(dict(env), ('spec', ctx or (self.current or {}).get('module'), '<clause>'), None)
@@ -460,14 +485,37 @@ class World:
         return self.ufs[key]
 
     def call_uf(self, it, name, args):
-        argsorts, ressort = self.uf_decls[name]
+        argsorts, ressort = self.uf_decls[name][:2]
+        restype = self.uf_decls[name][2] if len(self.uf_decls[name]) > 2 else None
         conv = {'obj': (IntS, lambda v: V.oid(v)), 'str': (StrS, lambda v: V.s(v)), 'int': (IntS, lambda v: O.ival(v)),
                 'val': (Val, lambda v: v), 'bool': (BoolS, lambda v: vals.truthy(v))}
         back = {'bool': (BoolS, V.BoolV), 'int': (IntS, V.IntV), 'str': (StrS, V.StrV), 'val': (Val, lambda x: x),
                 'obj': (IntS, V.ObjV)}
         f = self.uf('uf!' + name, [conv[a][0] for a in argsorts] + [back[ressort][0]])
         ts = [conv[a][1](it.as_val(v)) for a, v in zip(argsorts, args)]
-        return SV(back[ressort][1](f(*ts)))
+        res = back[ressort][1](f(*ts))
+        if restype:
+            it.assume_axiom(self.kind_pred(it, res, restype))
+            cls = _static_ty(restype)
+            key = ('ufinv', res.get_id())
+            if cls in self.classes and not self.classes[cls].get('abstract') and key not in it.lazy_done and not it.in_lazy:
+                # objects handed out by the view function satisfy their class invariant (assumed environment)
+                it.lazy_done.add(key)
+                saved = it.polarity
+                it.polarity = 'assume'
+                snap_pc, snap_known = list(it.pc), list(it.known)
+                try:
+                    it.pc.append(V.is_ObjV(res))
+                    it.learn(V.is_ObjV(res))
+                    inv = self.class_invariant(it, SV(it.refine(res), cls), cls)
+                    it.pc[:] = snap_pc
+                    it.known = snap_known
+                    it.assume_axiom(z3.Implies(V.is_ObjV(res), inv))
+                finally:
+                    it.polarity = saved
+                    it.pc[:] = snap_pc
+                    it.known = snap_known
+        return SV(res, _static_ty(restype))
 
     def call_dispatch(self, it, name, args, kwargs):
         if not args:
@@ -487,7 +535,13 @@ class World:
         # abstract receiver: uninterpreted, a function of the object identity
         rest = [it.as_val(a) for a in args[1:]]
         f = self.uf(f'{name}!U', [IntS] + [Val] * len(rest) + [BoolS])
-        return SV(V.BoolV(f(V.oid(recv.t), *rest)))
+        app = f(V.oid(recv.t), *rest)
+        # kind facts every concrete spec of that name implies (e.g. a member of a tuple type is a tuple)
+        for clsname, pred in self.abstract_facts.get(name, []):
+            if clsname in self.cids.ids:
+                it.assume_axiom(z3.Implies(z3.And(app, self.cids.sub(CLSOF(V.oid(recv.t)), clsname)),
+                                           self.kind_pred(it, rest[0], pred)))
+        return SV(V.BoolV(app))
 
     # ----------------------------------------------------- class invariants
     def type_invariant(self, it, obj, cls):
@@ -501,6 +555,9 @@ class World:
         return z3.And(*cs) if cs else z3.BoolVal(True)
 
     def kind_pred(self, it, v, fty):
+        if fty.startswith('tuple|'):
+            n = len(fty.split('|')) - 1
+            return z3.And(V.is_TupleV(v), z3.Length(V.titems(v)) == n)
         if '|none' in fty:
             base = fty.replace('|none', '')
             return z3.Or(V.is_NoneV(v), self.kind_pred(it, v, base))
@@ -518,7 +575,7 @@ class World:
             if kind in ('tuple', 'list'):
                 return V.is_TupleV(v) if kind == 'tuple' else V.is_ListV(v)
             if kind in ('dict', 'enumdict'):
-                return z3.And(V.is_DictV(v), vals.wf(v))
+                return V.is_DictV(v)
             if kind == 'callable':
                 return V.is_ObjV(v)
         if fty in self.classes:
@@ -583,7 +640,6 @@ class World:
         """a key of a dict with a pending element invariant is looked up: assume the invariant for that key"""
         if not it.lazy_inv or it.in_lazy:
             return
-        from .engine import ProbeFork
         dterm = it.refine(dterm)
         for ent in list(it.lazy_inv):
             if not it.refine(ent['dict']).eq(dterm):
@@ -593,49 +649,33 @@ class World:
                 continue
             it.lazy_done.add(tag)
             cur = (it.heap, it.ghost)
-            snap_pc, snap_known = list(it.pc), list(it.known)
-            # decision replay: whether this instantiation evaluated without forking is recorded in the script
-            path = it.path
-            replay = path.pos < len(path.script)
-            if replay:
-                marker = path.script[path.pos]
-                path.pos += 1
-                if marker != -1:
-                    continue
-            pos0, n0 = path.pos, len(path.script)
-            counter0, nfresh0 = it.counter, len(it.fresh_log)
             it.in_lazy = True
-            it.probe += 1
             try:
                 it.heap, it.ghost = dict(ent['heap']), dict(ent['ghost'])
                 cls = ent['obj'].ty
                 elty = O._elem_type(self.field_type(cls, ent['field']))
                 has = z3.Select(V.dhas(dterm), key)
+                el = z3.Select(V.dmap(dterm), key)
+                self.element_kind(it, el, elty, guard=has)
                 it.pc.append(has)
-                body = self.eval_spec(it, ent['text'], {'self': ent['obj'], 'k': SV(V.StrV(key)),
-                                                        'v': SV(z3.Select(V.dmap(dterm), key), elty)}, ctx=ent['ctx'], polarity='assume')
-                fact = z3.Implies(has, vals.truthy(body.t))
-            except (ProbeFork, PathEnd, PyRaise) as e:
+                try:
+                    body = self.clause(it, ent['text'], {'self': ent['obj'], 'k': SV(V.StrV(key)), 'v': SV(el, elty)},
+                                       ent['ctx'], 'assume')
+                finally:
+                    for j in range(len(it.pc) - 1, -1, -1):
+                        if it.pc[j].eq(has):
+                            del it.pc[j]
+                            break
+                fact = z3.Implies(has, body)
+            except (PathEnd, PyRaise, Unsupported) as e:
                 if os.environ.get('PYVC_DEBUG'):
                     print('lazy instantiation failed:', ent['field'], ent['text'], type(e).__name__, getattr(e, 'args', ''))
                 fact = None
             finally:
-                it.probe -= 1
                 it.in_lazy = False
                 it.heap, it.ghost = cur
-                it.pc[:] = snap_pc
-                it.known = snap_known
-            if not replay:
-                if fact is not None:
-                    path.script.insert(pos0, -1)
-                    path.pos += 1
-                else:
-                    del path.script[n0:]
-                    path.pos = pos0
-                    path.script.append(-2)
-                    path.pos += 1
-                    it.counter = counter0
-                    del it.fresh_log[nfresh0:]
+            if os.environ.get('PYVC_DEBUG'):
+                print('lazy instantiation', ent['field'], 'key', it.refine(key), '->', 'fact' if fact is not None else 'none', str(z3.simplify(fact)).replace(chr(10), ' ')[:1500] if fact is not None else '')
             if fact is not None:
                 it.assume_axiom(fact)
 
@@ -685,6 +725,19 @@ class World:
         return fdef, cls
 
     def bind_contract_args(self, it, c, bound, args, kwargs):
+        if c.get('packed_args'):
+            # abstract callee taking any arguments: the call's positional / keyword arguments as two packs
+            env = dict(bound)
+            if '*' in kwargs:
+                env['args'] = kwargs['*']
+                env['kwds'] = SV(vals.mkdict([]))
+            elif '**' in kwargs:
+                env['args'] = SV(const(()))
+                env['kwds'] = kwargs['**']
+            else:
+                env['args'] = SV(V.TupleV(vals.valseq([it.as_val(x) for x in args])))
+                env['kwds'] = SV(vals.mkdict([(k, it.as_val(v)) for k, v in kwargs.items()]))
+            return env
         fdef, cls = self.signature(c)
         selfv = bound.get('self')
         names = [a.arg for a in fdef.args.args]
@@ -712,9 +765,9 @@ class World:
         caller = it.frames[-1].fkey[-1] if it.frames else '?'
         ctx = c['module']
         for k, text in enumerate(c['requires']):
-            v = self.eval_spec(it, text, env, ctx)
-            it.oblige(f'call@{line}:{c["key"]}/requires.{k}', vals.truthy(v.t), kind='precondition', line=line)
-            it.assume(vals.truthy(v.t))
+            f = self.clause(it, text, env, ctx)
+            it.oblige(f'call@{line}:{c["key"]}/requires.{k}', f, kind='precondition', line=line)
+            it.assume(f)
         # lemma hypotheses are evaluated in the pre-state
         lemma_hyps = []
         quant_lemmas = []
@@ -724,7 +777,7 @@ class World:
             if lem.get('ghost_params'):
                 quant_lemmas.append((lname, lem))
                 continue
-            hs = [vals.truthy(self.eval_spec(it, text, env, ctx).t) for text in lem.get('requires', [])]
+            hs = [self.clause(it, text, env, ctx, 'assume') for text in lem.get('requires', [])]
             lemma_hyps.append((lname, lem, z3.And(*hs) if hs else z3.BoolVal(True)))
         for g in self.ghost_names:
             self.ghost_seq(it, g)
@@ -760,18 +813,22 @@ class World:
                 res = SV(it.fresh('res', Val), _static_ty(c.get('result_type')))
             if c.get('result_kind'):
                 it.assume(self.kind_pred(it, res.t, c['result_kind']))
+            if c.get('result_abstract'):
+                ra = c['result_abstract']
+                res = PV('abstract', {'contract': ra['contract'], 'bound': {k: env[v] for k, v in ra['bound'].items()}})
+                for nme, text in c['ensures'].items():
+                    it.assume(self.clause(it, text, env, ctx, 'assume'))
+                return res
             env['result'] = res
             for nme, text in c['ensures'].items():
-                v = self.eval_spec(it, text, env, ctx, polarity='assume')
-                it.assume(vals.truthy(v.t))
+                it.assume(self.clause(it, text, env, ctx, 'assume'))
             for lname, lem, hyp in lemma_hyps:
                 if lem.get('raises', 'never') == 'must':
                     it.assume(z3.Not(hyp))
                     continue
                 if it.feasible(hyp):
                     for nme, text in lem.get('ensures', {}).items():
-                        v = self.eval_spec(it, text, env, ctx)
-                        it.assume(z3.Implies(hyp, vals.truthy(v.t)))
+                        it.assume(z3.Implies(hyp, self.clause(it, text, env, ctx, 'assume')))
             for lname, lem in quant_lemmas:
                 self.assume_quantified_lemma(it, lem, env, ctx, entry_heap, entry_ghost, returned=True)
             return res
@@ -781,8 +838,7 @@ class World:
         env['exc'] = SV(V.ClsV(CLSOF(exc)))
         env['excval'] = excv
         for nme, text in c['raises'].items():
-            v = self.eval_spec(it, text, env, ctx, polarity='assume')
-            it.assume(vals.truthy(v.t))
+            it.assume(self.clause(it, text, env, ctx, 'assume'))
         for lname, lem in quant_lemmas:
             self.assume_quantified_lemma(it, lem, env, ctx, entry_heap, entry_ghost, returned=False)
         for lname, lem, hyp in lemma_hyps:
@@ -790,8 +846,7 @@ class World:
                 it.assume(z3.Not(hyp))
             elif isinstance(lem.get('raises'), dict):
                 for nme, text in lem['raises'].items():
-                    v = self.eval_spec(it, text, env, ctx)
-                    it.assume(z3.Implies(hyp, vals.truthy(v.t)))
+                    it.assume(z3.Implies(hyp, self.clause(it, text, env, ctx, 'assume')))
         raise PyRaise(excv)
 
     def assume_quantified_lemma(self, it, lem, env, ctx, entry_heap, entry_ghost, returned):
@@ -845,7 +900,6 @@ class World:
             it.assume(oid <= it.alloc_mark())
             return SV(t, ty)
         t = z3.Const(f'in!{name}', Val)
-        it.assume(vals.wf(t))
         if ty and ty != 'any':
             it.assume(self.kind_pred(it, t, ty))
         return SV(t, st)
@@ -899,12 +953,11 @@ class World:
             for g in self.ghost_names:
                 self.ghost_seq(it, g)
             for text in list(c['requires']) + list(c.get('assumes', [])) + list(extra_requires):
-                v = self.eval_spec(it, text, env, ctx, polarity='assume')
-                it.assume(vals.truthy(v.t))
+                it.assume(self.clause(it, text, env, ctx, 'assume'))
             # known-finding input classes: the clause is proved for every input outside them
             excl = {}
             for clause, texts in (getattr(self, 'exclusions', None) or {}).items():
-                excl[clause] = z3.Or(*[vals.truthy(self.eval_spec(it, t, env, ctx).t) for t in texts])
+                excl[clause] = z3.Or(*[self.clause(it, t, env, ctx, 'assume') for t in texts])
 
             def guard(clause, goal):
                 es = [excl[k] for k in (clause, '*') if k in excl]
@@ -912,6 +965,7 @@ class World:
             entry_heap = dict(it.heap)
             entry_ghost = dict(it.ghost)
             env['old!heap'] = (entry_heap, entry_ghost)
+            it.entry_old = (entry_heap, entry_ghost)
             it.entry_pc_len = len(it.pc)
             try:
                 res = it.call_function(fdef, (c['file'], c['func']), cls, params, closure)
@@ -927,8 +981,7 @@ class World:
                 if c.get('result_type') and isinstance(res, SV) and res.ty is None:
                     env2['result'] = SV(res.t, _static_ty(c['result_type']))
                 for nme, text in ensures.items():
-                    v = self.eval_spec(it, text, env2, ctx)
-                    it.oblige(f'{label}/ensures.{nme}', guard(f'ensures.{nme}', vals.truthy(v.t)), kind='post')
+                    it.oblige(f'{label}/ensures.{nme}', guard(f'ensures.{nme}', self.clause(it, text, env2, ctx)), kind='post')
             else:
                 if raises == 'never':
                     it.oblige(f'{label}/never-raises', guard('never-raises', z3.BoolVal(False)), kind='post')
@@ -936,8 +989,7 @@ class World:
                     env2['exc'] = SV(V.ClsV(it.exc_cls(res)))
                     env2['excval'] = res
                     for nme, text in raises.items():
-                        v = self.eval_spec(it, text, env2, ctx)
-                        it.oblige(f'{label}/raises.{nme}', guard(f'raises.{nme}', vals.truthy(v.t)), kind='post')
+                        it.oblige(f'{label}/raises.{nme}', guard(f'raises.{nme}', self.clause(it, text, env2, ctx)), kind='post')
             # frame: fields not in `modifies` are unchanged
             if c.get('check_frame', True):
                 allowed = {f[5:] if f.startswith('self.') else f for f in c['modifies']}
@@ -982,13 +1034,14 @@ MODULE_FUNCS = {'time.time': 'time_time', 'time.sleep': 'time_sleep', 'json.dump
                 'json.loads': 'json_loads', 'os.rename': 'os_rename', 'os.remove': 'os_remove',
                 'os.path.join': 'os_path_join'}
 MODULE_CLASSES = {}
+SINGLETONS = {'Done': -101, 'UNSET': -102}
 SPECIAL_GLOBALS = {('frappy/lib/__init__.py', 'generalConfig'): 'frappy.lib.generalConfig'}
 
 
 def _static_ty(ty):
     if isinstance(ty, str):
         ty = ty.replace('|none', '')
-    if ty in (None, 'any', 'int', 'float', 'bool', 'str', 'bytes', 'number', 'tuple', 'list', 'dict', 'set', 'none'):
+    if ty in (None, 'any', 'float', 'number', 'set', 'none'):
         return None
     return ty
 
